@@ -48,12 +48,35 @@ BASELINE_MISSED = {"C02-2": "C02 now sets stream trailers that share keys with t
  "C14r4-2": "typed family: a handler of another RPC kind answers a single-response call with 2–3 messages; the call must end, close the body and leave no goroutine",
  "C16r4-2": "the shared option values are applied elsewhere behind a shorter prefix; one option value may be listed twice",
  "C17r4-2": "package names starting with h/t/p/s (store.v1, payments.v1, test.http.v2, s, https)",
- "C19r4-1": "the panic may be raised by an interceptor declared after WithRecover (nested inside it)"}
+ "C19r4-1": "the panic may be raised by an interceptor declared after WithRecover (nested inside it)",
+ "C01r5-1": "a peer whose gzip writer emits two members per message (registered as gzip) against the built-in gzip reader",
+ "C01r5-2": "messages carrying a field the receiver's schema does not know (binary codec): unknown fields are content",
+ "C02r5-1": "the coded error reaches the library wrapped: fmt.Errorf(%w), errors.Join, two %w",
+ "C02r5-2": "a coded error (also code unknown) whose underlying error wraps context.Canceled / DeadlineExceeded",
+ "C03r5-1": "JSON error bodies with leading/trailing whitespace among the HTTP error pages",
+ "C03r5-2": "requests may announce their Content-Length (as fixed-size clients do), in both the one-piece and the segmented delivery",
+ "C04r5-1": "new transport ending: HTTP/2 'stream error … NO_ERROR; received from peer' before the body is complete",
+ "C05r5-1": "error metadata forwards representation headers (Content-Type, Content-Length); this exposed a GENUINE defect (fixed in /repo 0143659), after which this seeded change is ineffective (see its superseded_note)",
+ "C05r5-2": "reference errors now carry 0–2 details and short messages, so padded '==' status payloads occur; details are compared on the client side",
+ "C06r5-2": "response bodies may end in a transport error (unexpected EOF, connection reset) instead of a clean end",
+ "C07r5-2": "the oversize fault optionally sets an end-of-stream / trailer / unknown flag on the oversized envelope",
+ "C08r5-1": "requests may carry the other accept header as well (plain Accept-Encoding on streaming / gRPC requests), which is not this protocol's advertisement",
+ "C11r5-1": "trailer keys that begin with unary Connect's carrier prefix (Trailer-Id) and other look-alikes (Tea, Accept-Language)",
+ "C13r5-1": "new sub-check handler-peers: 2..5 raw requests from different peers through one handler set, each response byte-identical to a fresh handler's answer",
+ "C14r5-1": "typed calls whose request message cannot be marshalled: the call must fail, close the body and leave no goroutine",
+ "C15r5-2": "pre-cancelled context that also has a deadline which passes before the first operation: every failure must still say canceled",
+ "C16r5-1": "ref nodes: an earlier WithInterceptors value is used again elsewhere in the tree",
+ "C17r5-2": "go_package import paths with further elements (acme-weather/v2, x.y/v3, v2, api/v1) and no alias",
+ "C18r5-1": "code_<digits> with junk before or after the digits must be rejected (signed numbers stay grey)",
+ "C19r5-1": "the recovery function returns its coded error wrapped (fmt.Errorf %w, errors.Join)",
+ "C19r5-2": "the panic is raised inside conn.Send by the handler's codec (streaming kinds, binary codec)"}
 rows = []
 for d in sorted(glob.glob(os.path.join(ROOT, "seeded", "C*-*"))):
     name = os.path.basename(d)
     m = json.load(open(os.path.join(d, "meta.json")))
     ev = m.get("evaluation", {})
+    if m.get("superseded_note"):
+        ev = m.get("baseline_evaluation", ev)
     valid = ev.get("patch_applies") and ev.get("suite_passes_with_patch") and ev.get("demo_fails_with_patch") and ev.get("demo_passes_without_patch")
     det = [k.replace("check_", "") + " %.0fs" % v["wall_s"] for k, v in ev.items() if k.startswith("check_") and v.get("detected")]
     summ = re.sub(r"\s+", " ", str(m.get("summary", "")))[:170].replace("|", "/")
@@ -65,6 +88,8 @@ for d in sorted(glob.glob(os.path.join(ROOT, "seeded", "C*-*"))):
         note = "round 3: " + note
     if "r4-" in name:
         note = "round 4: " + note
+    if "r5-" in name:
+        note = "round 5: " + note
     rows.append("| %s | %s | %s | %s | %s | %s |" % (name, summ, needs, "yes" if valid else "NO", ", ".join(det) or "**not detected**", note))
 table = "| seeded | change | needs | confirmed (applies, suite passes, demo fails/passes) | detected by `./verif check <prop>` | history |\n|---|---|---|---|---|---|\n" + "\n".join(rows)
 p = os.path.join(ROOT, "DESIGN.md")
